@@ -369,6 +369,14 @@ def case(ctx, rnd, i):
                 rng = d.resolve(f).block_range(d.resolve(t))
             except Exception:
                 continue
+            if f < t and (rng is None or rng.depth < depthN):
+                # both ends lie inside N, which has block content: the block range around them is
+                # N's own content or deeper.  A shallower range is how a lift would start from
+                # outside N (it would take N itself along).
+                ctx.violation("lift-crosses", "block_range(%d,%d) for positions inside the isolating %s at %d..%d is %s (content depth of the node %d): lifting it moves the node itself"
+                              % (f, t, ntype, a, b, "None" if rng is None else "at depth %d" % rng.depth, depthN),
+                              {**base, "range": [f, t], "isolating_node": {"type": ntype, "open": a, "close": b}}, {"helper": "block_range"})
+                continue
             if rng is None or rng.depth < depthN:
                 continue
             # the range must lie inside N
